@@ -354,8 +354,24 @@ def compiledStatic (t : Tree) (path : Bytes) : Bool := (getStatic path t.statics
 def concatPrefix (pre path : Bytes) : Bytes :=
   if pre.length = 0 then path else if path.length = 0 then pre else pre ++ path
 
+/-- `strings.TrimSuffix(prefix, "/")` -/
+def trimSuffixSlash (s : Bytes) : Bytes :=
+  match s.reverse with
+  | '/' :: r => r.reverse
+  | _ => s
+
+/-- `Router.Mount` (the prefix loses one trailing slash, gets a leading one when it is empty or has none) and
+`mountRoute` (the sub-router's route `/` is the prefix itself, any other route the prefix followed by its path) -/
+def mountPath (pre sub : Bytes) : Bytes :=
+  let p := trimSuffixSlash pre
+  let p := if p = [] ∨ p.head? ≠ some '/' then '/' :: p else p
+  if sub = ['/'] then p else p ++ sub
+
 def fullPathOf (r : Reg) : Bytes :=
-  concatPrefix (r.groups.foldl concatPrefix []) r.path
+  let sub := concatPrefix (r.groups.foldl concatPrefix []) r.path
+  match r.mount with
+  | none => sub
+  | some pre => mountPath pre sub
 
 structure Router where
   trees : List (Bytes × Tree)   -- method trees that exist (`getTree(method) != nil`)
